@@ -122,7 +122,7 @@ func TestCleartextModel(t *testing.T) {
 	if m, err := ParseCleartext([]byte(bad)); err != nil || m.EscapeErrors != 1 {
 		t.Fatalf("%+v %v", m, err)
 	}
-	if string(Squash([]byte("a \t\r\nb\r"))) != "a\nb\n" {
+	if string(Squash([]byte("a \t\r\nb\r"))) != "a\nb\n" || string(Squash([]byte("a\n\r"))) != "a\n\n" || string(Squash([]byte("a\n\n"))) != "a\n\n" || len(Squash(nil)) != 0 {
 		t.Fatal("squash")
 	}
 }
